@@ -233,6 +233,7 @@ func runC07(c *core.Ctx) error {
 	checkDeferredReleaseInLoop(c, r6, irProg, pkgGen, pkgParser, pkgJS)
 	checkRecursionWalkComplete(c, r6, irProg)
 	checkMemoKeyIsArgument(c, r6, irProg, pkgParser, pkgJS, pkgGen)
+	checkInsertLookupKeyAgreement(c, r6, irProg, pkgParser, pkgJS, pkgGen, pkgIR)
 	return nil
 }
 
